@@ -110,14 +110,16 @@ def run(c):
         return any(a[1][3] == t[3] for a in again)
     c.triage(mism, classify, confirm)
     # ---- binding self-test: corrupt one logged field of two recorded events; TLC must reject exactly those
-    ea = next(json.loads(x) for x in events if x.startswith('{"op":"PcoRoundTrip"') and '"contents":[' in x and '"contents":[]' not in x)
+    badidx = {m[0] for m in mism}
+    clean = [x for i, x in enumerate(events) if i not in badidx and '"panic":false' in x]
+    ea = next(json.loads(x) for x in clean if x.startswith('{"op":"PcoRoundTrip"') and '"contents":[' in x and '"contents":[]' not in x)
     k = next(i for i, u in enumerate(ea["back"]) if u["contents"])
     ea["back"][k]["contents"][-1] ^= 1
-    eb = next(json.loads(x) for x in events if x.startswith('{"op":"PsiToBool"'))
+    eb = next(json.loads(x) for x in clean if x.startswith('{"op":"PsiToBool"'))
     eb["out"][200][9] ^= 1
-    ec = next(json.loads(x) for x in events if x.startswith('{"op":"PcoUnMarshal"') and '"back":[{' in x)
+    ec = next(json.loads(x) for x in clean if x.startswith('{"op":"PcoUnMarshal"') and '"back":[{' in x)
     ec["bytes"][3] = (ec["bytes"][3] + 1) % 256           # the unit's length octet in the input no longer matches the logged unit
-    good = next(x for x in events if x.startswith('{"op":"PsiToBuf"'))
+    good = next(x for x in clean if x.startswith('{"op":"PsiToBuf"'))
     st = c.validate("Trace_C16", [json.dumps(ea), good, json.dumps(eb), json.dumps(ec)], shards=1)
     c.cov["traces_validated_against_impl"] -= 4
     got = sorted((m[0], m[1][3]) for m in st)
